@@ -1,6 +1,7 @@
 //! L1 simulator entry point. See /verif/DESIGN.md §2.2.
 mod c10;
 mod c19;
+mod c20store;
 mod c21;
 mod c25;
 mod c26;
